@@ -355,7 +355,7 @@ fn main() {
     rep.add("special_generation_ms", t_gen.elapsed().as_millis() as u64);
     let families: Vec<String> = groups.iter().map(|g| g.0.clone()).collect();
     let groups = Mutex::new(groups.into_iter().map(Some).collect::<Vec<_>>());
-    run_cases(&sub_ctx(&ctx, 0.5), &replay, &mut rep, "special", families.len() as u64, |_rng, rep, case| {
+    run_cases(&sub_ctx(&ctx, 0.25), &replay, &mut rep, "special", families.len() as u64, |_rng, rep, case| {
         let Some((family, items)) = groups.lock().unwrap()[case as usize].take() else { return };
         let (seeds, jobs) = special_jobs(&family, items);
         rep.count(&format!("special_families.{}", family.split('.').next().unwrap_or("")));
@@ -365,7 +365,7 @@ fn main() {
 
     // ---- 2. descriptor strings
     let n_desc = ctx.tier.pick(60, 600);
-    run_cases(&sub_ctx(&ctx, 0.3), &replay, &mut rep, "descriptor", n_desc, |rng, rep, case| {
+    run_cases(&sub_ctx(&ctx, 0.1), &replay, &mut rep, "descriptor", n_desc, |rng, rep, case| {
         let cfg = maps::GenCfg::default();
         let seed: String = if (case as usize) < textmut::DESC_SEEDS.len() { textmut::DESC_SEEDS[case as usize].to_string() }
             else if rng.bool() { maps::gen::method_desc(rng, &cfg, &["a/B".to_string(), "C$D".to_string()]) } else { maps::gen::field_desc(rng, &cfg, &["a/B".to_string()]) };
@@ -377,7 +377,7 @@ fn main() {
 
     // ---- 3. text formats: seeds from the mapping generators through the harness' own emitters, token-level mutations
     let n_text = ctx.tier.pick(48, 1600);
-    run_cases(&sub_ctx(&ctx, 0.4), &replay, &mut rep, "text", n_text, |rng, rep, case| {
+    run_cases(&sub_ctx(&ctx, 0.2), &replay, &mut rep, "text", n_text, |rng, rep, case| {
         let fmt = [Fmt::Tiny, Fmt::TinyDiff, Fmt::Enigma, Fmt::Nests][(case % 4) as usize];
         let mut cfg = if rng.chance(1, 3) { maps::GenCfg::tame() } else { maps::GenCfg::default() };
         cfg.max_classes = 3; cfg.big = (0, 1);
@@ -401,12 +401,21 @@ fn main() {
         let mut roles: BTreeMap<&'static str, u64> = BTreeMap::new();
         let muts = classmut::enumerate(&bytes, &parsed.spans, rng, &classmut::EnumCfg { random_edits: 192 }, |r| *roles.entry(r).or_default() += 1);
         for (r, n) in roles { rep.add(&format!("spans_mutated.{r}"), n); }
+        // a seed whose complete enumeration exceeds the cap (the three 76 kB `Big` classes of the corpus: ~10^6 mutants of a file
+        // that takes milliseconds to read) is enumerated with a stride instead; recorded, never silent
+        let cap = if thorough { 60_000 } else { 20_000 };
+        let muts = if muts.len() > cap {
+            let stride = muts.len().div_ceil(cap); let off = rng.below(stride);
+            rep.count("class_seeds.enumerated_with_a_stride"); rep.add("class_mutants_skipped_by_the_stride", (muts.len() - muts.len() / stride) as u64);
+            rep.note(format!("{source}: {} mutants, every {stride}th one run", muts.len()));
+            muts.into_iter().enumerate().filter(|(i, _)| i % stride == off).map(|(_, m)| m).collect()
+        } else { muts };
         rep.count("class_seeds"); if bytes.len() < 512 { rep.count("class_seeds.truncated_at_every_byte"); }
         rep.add("class_seed_bytes", bytes.len() as u64);
         run_jobs(&sb, rep, &sh, vec![bytes], jobs_from(Parser::ReadClass, 0, 0, muts), source);
     };
     let n_gen = ctx.tier.pick(48, 1400);
-    run_cases(&sub_ctx(&ctx, 0.5), &replay, &mut rep, "class.generated", n_gen, |rng, rep, case| {
+    run_cases(&sub_ctx(&ctx, 0.25), &replay, &mut rep, "class.generated", n_gen, |rng, rep, case| {
         let cfg = cf::gen::GenCfg { max_fields: 2, max_methods: 3, max_insns: if case % 4 == 0 { 6 } else { 24 }, ..Default::default() };
         let m = cf::gen::gen_class(rng, &cfg);
         let layout = if case % 3 == 0 { cf::emit::Layout::canonical() } else { cf::emit::Layout::random(rng.next_u64()) };
